@@ -175,8 +175,8 @@ def gen_arange_long(tier, rng):
                    cmp=cmp_at_scaled(max(abs(start), abs(stop))), nontrivial=L > 1,
                    tags=['arange', 'arange.long', 'dtype=' + kind, 'step-real' if real_step else 'step-int',
                          'empty' if L == 0 else 'non-empty', 'step<0' if sn < 0 else 'step>0'])
-    # (2) beyond the binary32-exact range (integer step): the model carries the float32 computation out literally, the
-    # oracle is NumPy's count; requests on which the two differ are the known finding arange.float32-length
+    # (2) beyond the binary32-exact range (integer step): exact integer count since the repair "arange.float32-length"
+    # (theorem arange_len_int); regression inputs of that defect
     fixed = [(0, 16777217, 1), (0, 16777216, 1), (0, 16777218, 1), (-16777217, 0, 1), (16777217, 0, -1), (0, 33554433, 16777216),
              (0, 16777219, 2), (5, 50331653, 3), (0, 100, 16777217), (0, 2 ** 31 - 1, 1), (-(2 ** 30), 2 ** 30 - 1, 7),
              (0, 2 ** 31 - 1, 2 ** 24 + 1), (2 ** 30, -(2 ** 30) + 1, -(2 ** 24 + 3))]
@@ -195,7 +195,7 @@ def gen_arange_long(tier, rng):
         tail = 'data=huge' if L > 2 ** 20 else None
         if tail is None:
             tail = 'data=' + (fmt([start + k * st for k in range(L)]) if L else '[]')
-        yield Case('arange start=%d stop=%d step=%d dtype=int' % (start, stop, st), c04_bc.H_C, dom=False,
+        yield Case('arange start=%d stop=%d step=%d dtype=int' % (start, stop, st), c04_bc.H_C,
                    oracle='ok shape=%d %s' % (L, tail), nontrivial=True, tags=['arange', 'arange.beyond-binary32'])
 
 
